@@ -47,7 +47,7 @@ try:
         for pid in pids:
             t0 = time.time()
             rc, out = sh('./check %s' % pid, cwd=VERIF, e=dict(env, PURL_REPO=W, VERIF_ISOLATE='1'))
-            lines = [l for l in out.split('\n') if l.startswith(('VIOLATION', 'UNDECIDED', 'KNOWN', 'OK', 'V ', 'K ', 'B '))]
+            lines = [l for l in out.split('\n') if l.startswith(('VIOLATION', 'UNDECIDED', 'KNOWN', 'OK', 'V ', 'K ', 'B ', 'NOTE', 'NOT-VERIFIED'))]
             res['checks'][pid] = dict(exit=rc, wall=round(time.time() - t0, 1), lines=[l[:260] for l in lines])
 finally:
     sh('git -C /repo worktree remove --force %s' % W)
